@@ -1,8 +1,66 @@
 (* C04 — A (sub-)circuit's duration spans everything it contains. *)
-From Coq Require Import ZArith List Bool.
-From QCE Require Import Base.Prelude Core.Model C04.Proofs.
+From Coq Require Import ZArith List Bool Permutation.
+Import ListNotations.
+From QCE Require Import Base.Prelude Core.Model Core.BfsProofs Core.BfsWf Core.TimesProofs Core.TimesListing C04.Run C04.Proofs.
+From Gen Require Import Ident Classes.
 Open Scope Z_scope.
 
 Theorem C04_empty_circuit : forall env, comp_duration env nil = 0.
 Proof. exact empty_duration. Qed.
+
+(* a non-empty graph of leaf operations whose listing covers all nodes: duration = latest end - earliest start over ALL rows of
+   the times table (whichever nodes are relation leaves or first operations) *)
+Theorem C04_flat_span : forall env ns, ns <> [] -> (forall n, In n ns -> is_comp (n_op n) = false) ->
+  (forall n l, In n ns -> n_op n = OLeaf l -> 0 <= resolve env (l_dur l)) ->
+  Permutation (bfs (parents ns)) (seq 0 (length ns)) ->
+  comp_duration env ns = zmax_list 0 (map snd (node_times env None ns)) - zmin_list 0 (map fst (node_times env None ns)).
+Proof. exact flat_span. Qed.
+
+(* through nesting, in every context of type none / FOLLOWED_BY / JOINED_START: the duration of a (sub-)circuit = latest end -
+   earliest start over all entries it lists *)
+Theorem C04_nested_span : forall env r ns c se, span_wf env (OComp r ns) -> ctx_plain c ->
+  let L := listing_op env (OComp r ns) c se in
+  L <> [] /\ dur_of env (OComp r ns) = zmax_list 0 (map e_end L) - zmin_list 0 (map e_start L).
+Proof. exact nested_span. Qed.
+
+(* span_wf follows from the well-formedness every built graph has (BfsWf.wf_op) and a decidable shape condition *)
+Theorem C04_span_wf_of_built : forall env o, wf_op o -> shape_ok env o -> span_wf env o.
+Proof. exact wf_op_span_wf. Qed.
+Theorem C04_program_span : forall env p c se, shape_okb env (OComp 1 (run_prog env p)) = true -> ctx_plain c ->
+  let L := listing_op env (OComp 1 (run_prog env p)) c se in
+  L <> [] /\ comp_duration env (run_prog env p) = zmax_list 0 (map e_end L) - zmin_list 0 (map e_start L).
+Proof. exact program_span. Qed.
+
+(* every build program with non-negative durations (operations, and the class defaults under the settings) and no empty
+   sub-circuit: reported duration = latest end - earliest start over everything listed *)
+Theorem C04_program_span_all : forall env p c se, env_ok env -> p <> [] -> Forall (cmd_ok env) p -> ctx_plain c ->
+  let L := listing_op env (OComp 1 (run_prog env p)) c se in
+  L <> [] /\ comp_duration env (run_prog env p) = zmax_list 0 (map e_end L) - zmin_list 0 (map e_start L).
+Proof. exact program_span_all. Qed.
+Theorem C04_unrolled_span_all : forall env p c se, env_ok env -> p <> [] -> Forall (cmd_ok env) p -> ctx_plain c ->
+  let ns := apply_modifiers env 1 (run_prog env p) in
+  let L := listing_op env (OComp 1 ns) c se in
+  L <> [] /\ comp_duration env ns = zmax_list 0 (map e_end L) - zmin_list 0 (map e_start L).
+Proof. exact unrolled_span_all. Qed.
+Theorem C04_env_ok_of_globals : forall env, (forall k, 0 <= genv env k) -> env_ok env.
+Proof. exact env_ok_of_globals. Qed.
+
+(* if nothing inside node p starts before its first operations, whatever is FOLLOWED_BY p starts at start p + duration p,
+   which is not before any end listed for p *)
+Theorem C04_followers : forall env c ns p q pn qn, wf_node_links ns -> ctx_plain c ->
+  nth_error ns p = Some pn -> nth_error ns q = Some qn -> n_link qn = LRel RelationType_FOLLOWED_BY p ->
+  span_wf env (n_op pn) -> block_link_ok (n_link pn) -> fst (ext_of env (n_op pn)) = 0 ->
+  let tm := node_times env c ns in
+  fst (nth q tm (0, 0)) = fst (nth p tm (0, 0)) + dur_of env (n_op pn) /\
+  forall e, In e (listing_op env (n_op pn) (sub_ctx c tm (n_link pn)) (nth p tm (0, 0))) -> e_end e <= fst (nth q tm (0, 0)).
+Proof. exact followers. Qed.
+
 Print Assumptions C04_empty_circuit.
+Print Assumptions C04_flat_span.
+Print Assumptions C04_nested_span.
+Print Assumptions C04_span_wf_of_built.
+Print Assumptions C04_program_span.
+Print Assumptions C04_program_span_all.
+Print Assumptions C04_unrolled_span_all.
+Print Assumptions C04_env_ok_of_globals.
+Print Assumptions C04_followers.
